@@ -593,6 +593,43 @@ def inGoFragment (env : Env) (file : AFile) (n : Nat) (f : AFn) : Bool :=
   let G := goodFns env file n
   closedOK env file n G && G.contains f.name
 
+/-! ### the part of the fragment covered by the typing half of T2 (`compile_wellformed_typed_partial`) -/
+
+/-- unit, bool, string, or an integer type of a width Go has -/
+def stdTy : Ty → Bool
+  | .unit => true
+  | .bool => true
+  | .string => true
+  | .int b _ => b == 8 || b == 16 || b == 32 || b == 64
+  | _ => false
+
+def stdImm : Imm → Bool
+  | .var _ t => stdTy t
+  | .prim _ t => stdTy t
+  | .tag _ _ => false
+
+mutual
+/-- stage (a): scalars, operators, calls of functions / printing builtins, `let`, `if`, `while` -/
+def stdC : CExpr → Bool
+  | .imm i => stdImm i
+  | .un _ e ty => stdImm e && stdTy ty
+  | .bin _ l r ty => stdImm l && stdImm r && stdTy ty
+  | .call f args ty =>
+    args.all stdImm && stdTy ty &&
+    (match f with
+     | .var name _ => !refNames.contains name && !arrNames.contains name
+     | _ => false)
+  | .ite c t e ty => stdImm c && stdA t && stdA e && stdTy ty
+  | .while c b ty => stdA c && stdA b && stdTy ty
+  | _ => false
+def stdA : AExpr → Bool
+  | .ret c => stdC c
+  | .letE _ v b _ => stdC v && stdTy v.annTy && stdA b
+end
+
+/-- the hypothesis of the typing half of T2 on a function (besides membership in a closed set `G`) -/
+def stdFn (f : AFn) : Bool := f.params.all (fun p => stdTy p.2) && stdTy f.ret && stdA f.body
+
 /-! ### why a function is outside (reporting only) -/
 
 def tyClass : Ty → String
